@@ -39,3 +39,39 @@ class instruction_name:
                "opcode // 64 != 3 or result == 'DW_CFA_restore'", "opcode != 0x12 or result == 'DW_CFA_def_cfa_sf'",
                "opcode != 0 or result == 'DW_CFA_nop'", "opcode != 0x0c or result == 'DW_CFA_def_cfa'",
                "opcode != 0x16 or result == 'DW_CFA_val_expression'", "opcode != 0x15 or result == 'DW_CFA_val_offset_sf'"]
+
+
+# ---------------------------------------------------------------- instruction decoding (6.4.2)
+from specs.lineprog import op8
+from specs.cfiparse import primary, low6, ext, known, nargs, arg0, arg1, next_off
+
+
+@contract("elftools/dwarf/callframe.py", "CallFrameInstruction.__init__", props=["C06"])
+class cfinstr_init:
+    inline = True
+
+
+LAST = "instructions[len(instructions) - 1]"
+
+
+@contract("elftools/dwarf/callframe.py", "CallFrameInfo._parse_instructions", props=["C06"])
+class parse_instructions:
+    """step refinement of the instruction decoding of 6.4.2 / 7.24: every iteration decodes the instruction at the
+    current offset -- opcode byte, operand count, operand values by kind (low six bits, ULEB128, SLEB128, 1/2/4-byte,
+    address-sized, block) -- appends exactly it, and continues at the offset where its operands end; an opcode the table
+    does not know is rejected; the walk runs up to (not including) end_offset"""
+    params = dict(self=Obj('CallFrameInfo', stream=Stream), structs=StructsT, offset=Nat, end_offset=Nat)
+    ghost = {"$B": "self.stream.B", "$W": "structs.address_size", "$S": "structs"}
+    returns = ListOf(Any)
+    loops = {0: dict(
+        ghost_init={"$off": "offset"}, ghost_update={"$off": "offset"}, ghost_step={"$o": "offset", "$n0": "len(instructions)"},
+        invariant=["offset == $off", "offset >= 0"],
+        shapes={"instructions": ListOf(Any)},
+        step=["known($B, $o)", "len(instructions) == $n0 + 1", LAST + ".opcode == op8($B, $o)",
+              "len(" + LAST + ".args) == nargs($B, $o)",
+              "nargs($B, $o) < 1 or " + LAST + ".args[0] == arg0($B, $o, $W, $S)",
+              "nargs($B, $o) < 2 or " + LAST + ".args[1] == arg1($B, $o, $W, $S)",
+              "offset == next_off($B, $o, $W, $S)", "$o < end_offset"],
+        variant="len($B) + 1 - offset")}
+    ensures = []
+    may_raise = ["ELFParseError", "DWARFError", "KeyError", "OverflowError"]
